@@ -5,6 +5,147 @@ from common import *
 
 MAXP = {"quick": 16, "thorough": 64}
 
+# ---------------------------------------------------------------- how a probe asks
+# The readiness answer has to depend on the startup state only.  A probe event
+# therefore carries a request shape (see harness/c16.go c16Event): the way it
+# reaches the handler (recorder / raw text on a kept-alive TCP connection to a
+# real http.Server / net/http client), method, query string, headers, body,
+# HTTP version, connection slot and whether the connection is closed after it.
+# {"op": "probe"} alone is the plain GET through a recorder.
+METHODS = [("GET", 46), ("HEAD", 20), ("POST", 14), ("PUT", 4), ("OPTIONS", 5), ("DELETE", 3),
+           ("PATCH", 3), ("PROBE", 2), ("TRACE", 1), ("get", 2)]
+ACCEPTS = ["*/*", "application/json", "text/plain", "text/html", "application/xml",
+           "text/html,application/xhtml+xml,application/xml;q=0.9,*/*;q=0.8",
+           "application/json, text/plain;q=0.5", "text/plain, application/json;q=0.1",
+           "application/health+json", "application/vnd.kubernetes.protobuf, application/json",
+           "application/yaml", "text/event-stream", "image/*", "application/*", "text/*;q=0",
+           "application/openmetrics-text; version=1.0.0, text/plain;version=0.0.4;q=0.5", ""]
+CTYPES = ["application/json", "application/json; charset=utf-8", "application/x-www-form-urlencoded",
+          "text/plain", "multipart/form-data; boundary=xx", "application/octet-stream", "application/xml"]
+OTHER_HEADERS = [
+    ("User-Agent", ["kube-probe/1.27", "curl/8.4.0", "Go-http-client/1.1", "ELB-HealthChecker/2.0",
+                    "Mozilla/5.0 (X11; Linux x86_64)", "GoogleHC/1.0", "Consul Health Check", ""]),
+    ("Accept-Encoding", ["gzip", "identity", "gzip, deflate, br", "*;q=0"]),
+    ("Accept-Language", ["de-DE,de;q=0.9,en;q=0.8", "en"]),
+    ("Accept-Charset", ["utf-8", "iso-8859-1"]),
+    ("Cache-Control", ["no-cache", "max-age=0", "only-if-cached", "no-store"]),
+    ("Pragma", ["no-cache"]),
+    ("If-None-Match", ["*", '"ready"', 'W/"1"']),
+    ("If-Match", ["*"]),
+    ("If-Modified-Since", ["Thu, 01 Oct 2026 00:00:00 GMT", "Mon, 01 Jan 2001 00:00:00 GMT"]),
+    ("If-Unmodified-Since", ["Mon, 01 Jan 2001 00:00:00 GMT"]),
+    ("Range", ["bytes=0-0", "bytes=0-", "bytes=-1"]),
+    ("X-Forwarded-For", ["10.0.0.7", "203.0.113.9, 10.0.0.1"]),
+    ("X-Forwarded-Proto", ["https", "http"]),
+    ("X-Forwarded-Host", ["shop.example.com"]),
+    ("Forwarded", ["for=192.0.2.60;proto=http;by=203.0.113.43"]),
+    ("Via", ["1.1 proxy"]),
+    ("X-Request-Id", ["7f3c", "0"]),
+    ("X-Correlation-Id", ["abc-123"]),
+    ("Traceparent", ["00-0af7651916cd43dd8448eb211c80319c-b7ad6b7169203331-01"]),
+    ("Origin", ["https://example.com", "null"]),
+    ("Referer", ["https://example.com/pugjs/ready"]),
+    ("Cookie", ["session=abc; ready=1", "flamingo=x"]),
+    ("Authorization", ["Bearer x", "Basic dXNlcjpwYXNz"]),
+    ("X-Requested-With", ["XMLHttpRequest"]),
+    ("X-Http-Method-Override", ["GET", "HEAD", "POST", "DELETE"]),
+    ("Prefer", ["return=minimal", "wait=10"]),
+    ("Te", ["trailers"]),
+    ("Dnt", ["1"]),
+    ("Sec-Fetch-Mode", ["navigate", "cors"]),
+    ("Sec-Fetch-Dest", ["document", "empty"]),
+    ("Upgrade-Insecure-Requests", ["1"]),
+    ("Access-Control-Request-Method", ["GET", "POST"]),
+    ("Access-Control-Request-Headers", ["accept, content-type"]),
+    ("Max-Forwards", ["0", "10"]),
+    ("X-Probe", ["readiness", "liveness", "startup"]),
+    ("X-Ready", ["true", "1", "force"]),
+    ("X-Debug", ["1"]),
+    ("Keep-Alive", ["timeout=5, max=100"]),
+    ("From", ["ops@example.com"]),
+]
+QUERIES = ["format=json", "format=text", "verbose", "verbose=1", "full=1", "ready=true", "ready=1", "force=1",
+           "probe=readiness", "probe=liveness", "callback=cb", "timeout=1s", "_=1696242000", "a=1&a=2",
+           "json", "pretty", "%7B%7D", "q=%20", "x=" + "y" * 300, "wait=1", "cache=0", "debug=true", "&", "="]
+BODIES = ["{}", '{"ready":true}', "ready=1", "x", '{"probe":"readiness"}', "a" * 600]
+
+
+def wchoice(rng, pairs):
+    tot = sum(w for _, w in pairs)
+    x = rng.random() * tot
+    for v, w in pairs:
+        x -= w
+        if x <= 0:
+            return v
+    return pairs[-1][0]
+
+
+def spell(rng, name, via):
+    """header names are case-insensitive: on the raw connection they are also written in other spellings"""
+    if via != "raw":
+        return name
+    r = rng.random()
+    return name.lower() if r < 0.25 else name.upper() if r < 0.32 else name
+
+
+def probe_shape(rng, conn=None, plain=0.25):
+    """One probe event with a random request shape.  conn: force this raw connection slot."""
+    e = {"op": "probe"}
+    if conn is None and rng.random() < plain:
+        return e
+    via = "raw" if conn is not None else wchoice(rng, [("rec", 22), ("raw", 50), ("client", 28)])
+    e["via"] = via
+    m = wchoice(rng, METHODS)
+    if m == "get" and via == "client":
+        m = "GET"                    # net/http's client normalises it anyway
+    e["m"] = m
+    if rng.random() < 0.35:
+        e["q"] = rng.choice(QUERIES)
+    h = []
+    if rng.random() < 0.55:
+        h.append([spell(rng, "Accept", via), rng.choice(ACCEPTS)])
+        if rng.random() < 0.1:
+            h.append([spell(rng, "Accept", via), rng.choice(ACCEPTS)])     # a second Accept line
+    has_body = (m in ("POST", "PUT", "PATCH") and rng.random() < 0.8) or rng.random() < 0.06
+    if has_body:
+        e["body"] = rng.choice(BODIES)
+    if has_body and rng.random() < 0.85 or rng.random() < 0.12:
+        h.append([spell(rng, "Content-Type", via), rng.choice(CTYPES)])
+    for _ in range(rng.choice([0, 0, 1, 1, 2, 3, 5])):
+        if rng.random() < 0.08:
+            h.append(["X-" + rng.choice(["Env", "Stage", "Tenant", "Flag", "Mode"]),
+                      rng.choice(["prod", "1", "true", "json", "v" * 2000])])
+        else:
+            name, vals = rng.choice(OTHER_HEADERS)
+            h.append([spell(rng, name, via), rng.choice(vals)])
+    rng.shuffle(h)
+    if h:
+        e["h"] = h
+    if via == "raw":
+        e["proto"] = "1.0" if rng.random() < 0.25 else "1.1"
+        e["conn"] = conn if conn is not None else rng.randint(0, 2)
+        if e["proto"] == "1.0" and rng.random() < 0.4:
+            e.setdefault("h", []).append(["Connection", "keep-alive"])
+    if via in ("raw", "client") and rng.random() < 0.15:
+        e["close"] = True
+    return e
+
+
+def probes_here(rng):
+    """The probes made at one point of a history: mostly one to three; sometimes a run of many
+    differently shaped requests on ONE kept-alive connection."""
+    if rng.random() < 0.12:
+        slot = rng.randint(0, 2)
+        out = []
+        for _ in range(rng.randint(4, 10)):
+            e = probe_shape(rng, conn=slot)
+            e["proto"] = "1.1"
+            e.pop("close", None)
+            e["h"] = [x for x in e.get("h", []) if x[0] != "Connection"]
+            out.append(e)
+        return out
+    return [probe_shape(rng) for _ in range(rng.choice([1, 1, 1, 2, 3]))]
+
 
 def history(rng, n, fail_mode, shape, p_probe):
     """One history from the event grammar.  n processes (ids 1..n in order of
@@ -35,8 +176,7 @@ def history(rng, n, fail_mode, shape, p_probe):
     }[shape]
     while True:
         if rng.random() < p_probe:
-            for _ in range(rng.choice([1, 1, 1, 2, 3])):
-                evs.append({"op": "probe"})
+            evs.extend(probes_here(rng))
         acts = []
         if to_add and not finished:
             acts.append(("add", w_add))
@@ -64,7 +204,7 @@ def history(rng, n, fail_mode, shape, p_probe):
             evs.append({"op": "finish"})
     if rng.random() < 0.5:
         for _ in range(rng.choice([1, 2, 4])):
-            evs.append({"op": "probe"})
+            evs.append(probe_shape(rng))
     return {"events": evs}
 
 
@@ -84,23 +224,40 @@ class C16(Prop):
     prop_module = "Props.C16"
     prop_file = "Props/C16.v"
     coq_targets = ["Props/C16.vo", "Run/Judge_C16.vo"]
-    sizes = {"quick": 200, "thorough": 10000}
+    sizes = {"quick": 400, "thorough": 10000}
     design_ref = "DESIGN.md section 6 C16"
     rule = ("histories drawn from the event grammar Add p (only before Finish) | End p r | Finish | Probe: "
             "0-8 processes (thorough: up to 64), random completion order, failing subset none/one/several/all "
             "with distinct error ids, Finish before/between/after the completions, probes at random points, "
             "histories cut with processes still running or never finished; run against a real pugjs.Startup "
-            "probed through controllers.Ready.ServeHTTP; non-trivial = at least 2 processes and at least one "
-            "probe before the final one; distinct by SHA-1 of the case")
+            "probed through controllers.Ready.ServeHTTP.  Every probe event carries HOW it asks (about a quarter "
+            "are the plain GET through a recorder): reached through an httptest.ResponseRecorder, as request text "
+            "on a TCP connection to a real http.Server (http.ServeMux route /pugjs/ready as flamingo's "
+            "systemendpoint mounts it; HTTP/1.1 or 1.0; three connection slots kept alive and reused across the "
+            "probes of the history, or closed by the request) or by a net/http client with a keep-alive pool; "
+            "method GET/HEAD/POST/PUT/OPTIONS/DELETE/PATCH/unknown/lower-case; query strings; Accept and "
+            "Content-Type values (json, text, html, wildcards, q-values, repeated lines, empty), about 40 other "
+            "header names (probe user agents, conditional and range headers, forwarding, CORS, cookies, "
+            "authorization, method override, made-up X- headers, long values) in varying spelling; bodies; one "
+            "point in eight gets a run of 4-10 differently shaped probes on ONE connection; fixed corner "
+            "histories ask the same shapes at every stage of one startup.  The status judged is the one the "
+            "client reads; the judge is not told how the probe asked.  Non-trivial = at least 2 processes and "
+            "at least one probe before the final one; distinct by SHA-1 of the case")
     trusted = [
         "errgroup.Group (golang.org/x/sync): Go(f) runs f in a goroutine, the first non-nil error in completion "
         "order is kept (sync.Once), Wait blocks until every f has returned and then returns that error - "
         "modelled by the completion-ordered result list of Models/Startup.v, not verified",
         "Go channel semantics (unbuffered send completes when the listener receives; receive from a closed "
         "channel never blocks) as read into the WaiterStep transitions",
-        "the driver establishes the completion order by ending one process at a time and waiting until its "
-        "goroutine has left errgroup's wrapper (runtime.NumGoroutine dropped); a case where that could not be "
-        "established within 2 s is reported unmodelled, not judged",
+        "the driver establishes the completion order by ending one process at a time and waiting until the "
+        "goroutine that ran it (identified by its id) is gone from the runtime's goroutine dump, i.e. has left "
+        "errgroup's wrapper; a case where that could not be established within 2 s is reported unmodelled, "
+        "not judged",
+        "net/http's response writer (server and httptest.ResponseRecorder): the status line is fixed by the "
+        "handler's first call - WriteHeader(st) gives st, a Write before it an implicit 200 (client_status in "
+        "Models/Startup.v); http.ServeMux routes every method and query of /pugjs/ready to the handler; the "
+        "harness' own raw client (request text written to a socket, http.ReadResponse) and net/http's client "
+        "report the status line as sent",
     ]
     assumptions = [
         "Timing words are observed, never proved: 'eventually 200' is a probe polled for at most 2 s after every "
@@ -113,6 +270,12 @@ class C16(Prop):
         "Finish returns), here receiving until the channel is closed and recording instead of panicking",
         "AddProcess after Finish, a second Finish, and processes that never return are outside the model "
         "(M declines such histories; the generator does not produce them)",
+        "request shapes are a finite vocabulary (methods, ~45 header names with a few values each, ~25 query "
+        "strings, HTTP/1.0 and 1.1, no TLS, no HTTP/2, no Expect/Upgrade/chunked request bodies, path always "
+        "exactly /pugjs/ready): a handler that keys its answer on anything outside it is not exercised; in the "
+        "model C16_answer_of_state_only holds for every request value",
+        "a transport error of a server probe is retried once on a fresh connection; a second error is reported "
+        "as status 0 (no legal status: violation)",
     ]
     not_yet_proved = []
 
@@ -134,6 +297,30 @@ class C16(Prop):
             [P, P, P],
             [],                                   # nothing at all: 425
         ]
+        # the same request shapes at every stage of one startup: nothing registered, running, finished
+        # but running, everything ended - through the recorder, a kept-alive raw connection and a client
+        def J(via, **kw):
+            return dict({"op": "probe", "via": via, "h": [["Accept", "application/json"]]}, **kw)
+        stages = [[], [{"op": "add", "p": 1}, {"op": "add", "p": 2}], [F], [{"op": "end", "p": 2, "err": 0}],
+                  [{"op": "end", "p": 1, "err": 3}]]
+        asks = [
+            [P, J("rec"), J("raw", conn=0, proto="1.1"), J("client")],
+            [{"op": "probe", "via": "raw", "m": "HEAD", "conn": 0, "proto": "1.1"},
+             {"op": "probe", "via": "raw", "m": "POST", "conn": 0, "proto": "1.1", "body": "{}",
+              "h": [["Content-Type", "application/json"]]},
+             {"op": "probe", "via": "raw", "m": "GET", "conn": 1, "proto": "1.0", "q": "format=json"},
+             {"op": "probe", "via": "client", "m": "HEAD", "h": [["User-Agent", "kube-probe/1.27"]]}],
+            [{"op": "probe", "via": "rec", "m": "OPTIONS", "h": [["Origin", "https://example.com"]]},
+             {"op": "probe", "via": "client", "m": "POST", "body": "ready=1", "close": True,
+              "h": [["Content-Type", "application/x-www-form-urlencoded"], ["X-Http-Method-Override", "GET"]]},
+             {"op": "probe", "via": "raw", "conn": 2, "proto": "1.1", "close": True,
+              "h": [["if-none-match", "*"], ["cache-control", "only-if-cached"]]}],
+        ]
+        for ask in asks:
+            evs = []
+            for st in stages:
+                evs += st + ask
+            corners.append(evs)
         for evs in corners:
             cases.append({"events": [dict(e) for e in evs]})
         while len(cases) < n:
@@ -205,10 +392,20 @@ class C16(Prop):
             if e["op"] == "end":
                 return "End %d %s" % (e["p"], "ok" if not e["err"] else "failed(%d)" % e["err"])
             return e["op"].capitalize()
+        def ask(e):
+            if len(e) == 1:
+                return ""
+            t = "%s %s%s" % (e.get("via", "rec"), e.get("m", "GET"), "?" + e["q"][:24] if e.get("q") else "")
+            if e.get("via") == "raw":
+                t += " HTTP/%s conn%d" % (e.get("proto", "1.1"), e.get("conn", 0))
+            t += " close" if e.get("close") else ""
+            t += "".join(" %s:%s" % (k, v[:40]) for k, v in e.get("h", []))
+            t += " body[%d]" % len(e["body"]) if e.get("body") else ""
+            return " <" + t + ">"
         probes = iter(obs["probes"])
         hist = []
         for e in case["events"][:obs["done"]]:
-            hist.append("Probe=%d" % next(probes)["code"] if e["op"] == "probe" else show(e))
+            hist.append("Probe=%d%s" % (next(probes)["code"], ask(e)) if e["op"] == "probe" else show(e))
         return {"history": hist, "final_probe": obs["final"], "delivered": obs["delivered"],
                 "class": obs["class"], "settled": obs["settled"]}
 
@@ -218,9 +415,28 @@ class C16(Prop):
         pids = [e["p"] for e in evs if e["op"] == "add"]
         for p in pids:                       # drop a whole process
             out.append([e for e in evs if e.get("p") != p])
+        shaped = [i for i, e in enumerate(evs) if e["op"] == "probe" and len(e) > 1]
+        if len(shaped) > 1:                  # every probe asks plainly
+            out.append([{"op": "probe"} if i in shaped else e for i, e in enumerate(evs)])
         for i, e in enumerate(evs):          # drop a probe
             if e["op"] == "probe":
                 out.append(evs[:i] + evs[i + 1:])
+        for i in shaped[:12]:                # one probe asks more plainly
+            e = evs[i]
+            simpler = [{"op": "probe"}]
+            if e.get("via", "rec") != "rec":
+                simpler.append(dict({k: v for k, v in e.items() if k not in ("proto", "conn", "close")},
+                                    via="rec"))
+            if e.get("m", "GET") != "GET":
+                simpler.append(dict(e, m="GET"))
+            for k in ("q", "body", "close"):
+                if e.get(k):
+                    simpler.append({a: b for a, b in e.items() if a != k})
+            hs = e.get("h", [])
+            for j in range(len(hs)):
+                simpler.append(dict(e, h=hs[:j] + hs[j + 1:]))
+            for x in simpler:
+                out.append(evs[:i] + [x] + evs[i + 1:])
         for i, e in enumerate(evs):          # a failing process succeeds instead
             if e["op"] == "end" and e["err"]:
                 out.append(evs[:i] + [dict(e, err=0)] + evs[i + 1:])
@@ -228,7 +444,7 @@ class C16(Prop):
             out.append(evs[:i])
             if len(out) > 60:
                 break
-        for o in out[:40]:
+        for o in out[:60]:
             yield {"events": o}
 
     def model_expr(self):
@@ -242,7 +458,15 @@ class C16(Prop):
              "complete": 0, "cut_running": 0, "never_finished": 0,
              "finish_before_all_ends": 0, "finish_after_all_ends": 0, "finish_between": 0,
              "probe_events": 0, "probes_425": 0, "probes_200": 0, "awaited_probes": 0,
-             "delivered_nonempty": 0, "not_settled": 0, "events_max": 0}
+             "delivered_nonempty": 0, "not_settled": 0, "events_max": 0,
+             "ask_plain": 0, "ask_recorder_shaped": 0, "ask_raw_http11": 0, "ask_raw_http10": 0, "ask_client": 0,
+             "ask_on_reused_connection": 0, "ask_connection_close": 0, "ask_GET": 0, "ask_HEAD": 0,
+             "ask_POST": 0, "ask_other_method": 0, "ask_with_query": 0, "ask_with_body": 0,
+             "ask_with_accept": 0, "ask_accept_names_json": 0, "ask_with_content_type": 0,
+             "ask_other_headers": 0, "ask_distinct_header_names": 0, "ask_shaped_while_not_ready": 0,
+             "ask_shaped_answers_425": 0, "ask_shaped_answers_200": 0,
+             "histories_with_run_on_one_connection": 0}
+        names = set()
         for c, o in zip(cases, obss):
             n, ended, fails, fin = facts(c)
             d["processes_0"] += n == 0
@@ -263,6 +487,58 @@ class C16(Prop):
                 d["finish_before_all_ends"] += before == 0
                 d["finish_after_all_ends"] += before == n
                 d["finish_between"] += 0 < before < n
+            open_slots, run, best = set(), 0, 0
+            pi = iter(o["probes"])
+            live, fin_seen = set(), False
+            for e in c["events"][:o["done"]]:
+                if e["op"] == "add":
+                    live.add(e["p"])
+                elif e["op"] == "end":
+                    live.discard(e["p"])
+                elif e["op"] == "finish":
+                    fin_seen = True
+                if e["op"] != "probe":
+                    continue
+                code = next(pi)["code"]
+                via, m = e.get("via", "rec"), e.get("m", "GET").upper()
+                shaped = len(e) > 1
+                d["ask_plain"] += not shaped
+                d["ask_recorder_shaped"] += shaped and via == "rec"
+                d["ask_client"] += via == "client"
+                d["ask_GET"] += m == "GET"
+                d["ask_HEAD"] += m == "HEAD"
+                d["ask_POST"] += m == "POST"
+                d["ask_other_method"] += m not in ("GET", "HEAD", "POST")
+                d["ask_with_query"] += bool(e.get("q"))
+                d["ask_with_body"] += bool(e.get("body"))
+                d["ask_connection_close"] += bool(e.get("close"))
+                hn = [k.lower() for k, _ in e.get("h", [])]
+                names.update(hn)
+                d["ask_with_accept"] += "accept" in hn
+                d["ask_accept_names_json"] += any(k.lower() == "accept" and "json" in v for k, v in e.get("h", []))
+                d["ask_with_content_type"] += "content-type" in hn
+                d["ask_other_headers"] += sum(1 for k in hn if k not in ("accept", "content-type"))
+                d["ask_shaped_while_not_ready"] += shaped and (bool(live) or not fin_seen)
+                d["ask_shaped_answers_425"] += shaped and code == 425
+                d["ask_shaped_answers_200"] += shaped and code == 200
+                if via == "raw":
+                    v10 = e.get("proto") == "1.0"
+                    d["ask_raw_http10"] += v10
+                    d["ask_raw_http11"] += not v10
+                    slot = e.get("conn", 0)
+                    if slot in open_slots:
+                        d["ask_on_reused_connection"] += 1
+                        run += 1
+                    else:
+                        run = 1
+                    best = max(best, run)
+                    if v10 or e.get("close"):
+                        open_slots.discard(slot)
+                    else:
+                        open_slots.add(slot)
+                else:
+                    run = 0
+            d["histories_with_run_on_one_connection"] += best >= 4
             allp = o["probes"] + ([o["final"]] if o["class"] == "ok" else [])
             d["probe_events"] += len(allp)
             d["probes_425"] += sum(1 for p in allp if p["code"] == 425)
@@ -271,6 +547,7 @@ class C16(Prop):
             d["delivered_nonempty"] += bool(o["delivered"])
             d["not_settled"] += not o["settled"]
             d["events_max"] = max(d["events_max"], len(c["events"]))
+        d["ask_distinct_header_names"] = len(names)
         return {k: int(v) for k, v in d.items()}
 
 
